@@ -58,10 +58,56 @@ class SingleRootField(June2018ReleaseValidationRule):
 
         return []
 
+    def _collect_response_keys(
+        self, selection_set, fragments, response_keys, visited_fragments
+    ):
+        for selected in selection_set.selections:
+            if isinstance(selected, FragmentSpreadNode):
+                name = selected.name.value
+                frag = _find_fragment(fragments, name)
+                if frag and name not in visited_fragments:
+                    visited_fragments.add(name)
+                    self._collect_response_keys(
+                        frag.selection_set,
+                        fragments,
+                        response_keys,
+                        visited_fragments,
+                    )
+            elif isinstance(selected, InlineFragmentNode):
+                self._collect_response_keys(
+                    selected.selection_set,
+                    fragments,
+                    response_keys,
+                    visited_fragments,
+                )
+            else:
+                response_keys.add(
+                    selected.alias.value
+                    if selected.alias
+                    else selected.name.value
+                )
+        return response_keys
+
+    def _has_single_root_field(self, operation, fragments):
+        return (
+            len(
+                self._collect_response_keys(
+                    operation.selection_set, fragments, set(), set()
+                )
+            )
+            <= 1
+        )
+
     def validate(self, path, definitions, **__):
         errors = []
         for operation in definitions["OperationDefinition"]:
             if operation.operation_type == "subscription":
+                # Selections sharing the same response key are merged into
+                # one single root field
+                if self._has_single_root_field(
+                    operation, definitions["FragmentDefinition"]
+                ):
+                    continue
                 errors.extend(
                     self._validate_selection_set(
                         operation,
